@@ -82,6 +82,55 @@ def h_frame(x, bk, op, na, nb):
         be.close()
 
 
+HIST = ["upsertA", "deleteA", "insertB", "insertA", "replaceA", "replace_lastA"]
+
+
+def h_history(x, bk, L, alphabet):
+    """L operations on one store object: writes addressed to bucket A that all use one unconstrained event id
+    (an id of A, of B, or of nothing), interleaved with plain inserts into bucket B; after every step bucket B
+    holds exactly what was inserted into it (state kept between calls — caches, reused ids — is in play)"""
+    A = ST.sym_rows(x, "a", 1)
+    B = ST.sym_rows(x, "b", 1)
+    ST.distinct(x, [r.id for r in A + B] if bk != "memory" else [r.id for r in A])
+    be = ST.backend(bk)
+    ds = be.make(x, {"A": A, "B": B})
+    try:
+        qid = x.zint("qid", 1, 3 * 10**6)
+        model_b = list(B)
+        meta_b = dict(ds["B"].metadata())
+        obl, trace = [], []
+        for i in range(L):
+            op = alphabet[x.choice("op%d" % i, len(alphabet))]
+            new = ST.sym_rows(x, "n%d" % i, 1, ids=False)[0]
+            raised = None
+            try:
+                if op == "upsertA":
+                    ds["A"].insert([C.mk_event(x, new.start, new.dur, {"tag": x.wrap(new.tag)}, id=x.wrap(qid), aligned=False)])
+                elif op == "deleteA":
+                    ds["A"].delete(x.wrap(qid))
+                elif op == "insertA":
+                    ds["A"].insert(ST.event_of_row(x, new))
+                elif op == "replaceA":
+                    ds["A"].replace(x.wrap(qid), ST.event_of_row(x, new))
+                elif op == "replace_lastA":
+                    ds["A"].replace_last(ST.event_of_row(x, new))
+                elif op == "insertB":
+                    x.assume(new.start > model_b[-1].start)  # B's events arrive in time order (its internal order is not the subject)
+                    ret = ds["B"].insert(ST.event_of_row(x, new))
+                    model_b.append(Row(C.zv(ret.id), new.start, new.dur, new.tag))
+            except Exception as e:  # noqa — rejected: fine, as long as B is what it should be
+                raised = type(e).__name__
+            trace.append([op, raised])
+            tab = be.table_rows(ds)
+            obl.append(("other-bucket-holds-exactly-its-own-events-step%d" % i, same_rows_as_sets(tab.get("B", []), model_b)))
+            obl.append(("no-orphan-rows-step%d" % i, "<orphans>" not in tab))
+        obl.append(("other-bucket-reads-back-its-own-events", same_rows_in_order(api_rows(ds, "B"), list(reversed(model_b)))))
+        obl.append(("other-bucket-metadata-identical", dict(ds["B"].metadata()) == meta_b))
+        return obl, trace
+    finally:
+        be.close()
+
+
 def harnesses(tier):
     ST.install_common()
     ST.install_sqlite()
@@ -95,6 +144,13 @@ def harnesses(tier):
                     continue
                 hs.append((Harness(PROP, "%s-%s-%d+%d" % (bk, op, na, nb), h_frame, dict(bk=bk, op=op, na=na, nb=nb),
                                    "%s backend: %s on bucket A (%d events) with unconstrained id / instants; bucket B (%d events) must be untouched" % (bk, op, na, nb), split_depth=6), 1800))
+    for bk in ["memory", "sqlite", "peewee"]:
+        if tier == "quick":
+            spec = [(4, HIST[:3])]
+        else:
+            spec = [(4, HIST[:3]), (3, HIST), (5, HIST[:3])] if bk != "peewee" else [(4, HIST[:3]), (3, HIST)]
+        for L, alpha in spec:
+            hs.append((Harness(PROP, "%s-history-L%d-%dops" % (bk, L, len(alpha)), h_history, dict(bk=bk, L=L, alphabet=alpha), "%s backend: every sequence of %d operations out of %s, all addressed to one unconstrained event id, on one store object" % (bk, L, alpha), split_depth=8), 3600))
     return hs
 
 
@@ -104,7 +160,8 @@ def meta(chk, tier):
     chk.bounds = [
         "two buckets with %s events each in an arbitrary valid state; event ids global, symbolic, pairwise distinct; the id passed to upsert / replace / delete is unconstrained in [1, 3e6] (an id of A, of B, or of nothing)" % ("1+1" if tier == "quick" else "up to 2+2"),
         "instants multiples of 1 ms (may coincide across buckets), durations integer us in [0, 24 h]",
-        "operations: " + ", ".join(OPS) + "; backends memory, sqlite",
+        "operations: " + ", ".join(OPS) + "; backends memory, sqlite, peewee",
+        "histories on one store object: 4 operations out of upsert / delete in A with one unconstrained id and insert into B (quick); also 3 out of six kinds and 5 out of three (thorough)",
     ]
     chk.stubs = ["as C02"]
     chk.assumptions = ["an operation that raises is 'rejected'; the other bucket must be untouched either way"]
